@@ -177,7 +177,16 @@ func Gen(t *rapid.T, o Opts) amf0ref.Val {
 }
 
 func GenKey(t *rapid.T) []byte {
-	switch rapid.IntRange(0, 5).Draw(t, "keyk") {
+	switch rapid.IntRange(0, 7).Draw(t, "keyk") {
+	case 6:
+		// long names: the 16-bit length has a non-zero high byte; first bytes that mean something elsewhere in the format
+		n := rapid.SampledFrom([]int{255, 256, 257, 511, 512, 513, 768, 1024, 4096}).Draw(t, "keylen")
+		b := bytes.Repeat([]byte{'k'}, n)
+		b[0] = rapid.SampledFrom([]byte{0x09, 0x00, 'k', 0x03, 0x08}).Draw(t, "keyfirst")
+		return b
+	case 7:
+		// names that differ from common ones only in case or in trailing zero bytes
+		return []byte(rapid.SampledFrom([]string{"App", "APP", "tcurl", "TcUrl", "Duration", "a\x00", "a\x00\x00", "app\x00", "width", "Width"}).Draw(t, "keyrel"))
 	case 0:
 		return rapid.SliceOfN(rapid.Byte(), 0, 12).Draw(t, "keyb")
 	case 1:
